@@ -53,6 +53,9 @@ class Multiline:
       self._set_existing_field(tagname, prev)
       return
     if self.vlevel > 1:
+      if self.vlevel >= 3 and datatype is not None:
+        # (_vpush validates the value only if no datatype is given)
+        gfapy.Field._validate_gfa_field(value, datatype, tagname)
       prev._vpush(value, datatype, tagname)
     else:
       prev.append(value)
